@@ -2164,3 +2164,275 @@ Lemma fixes_repair_witnesses :
   front_out_shape_v all_fixes (AInter [([4;2]%Z, [IL 5; IL 1]); ([2;3]%Z, [IL 1; IL 2])] None) = Some [3;4]%Z /\
   agrees_args_v all_fixes (AStr [97;98;45;62;46;46;46;97;98] [[2;3]]%Z) = Some true.
 Proof. vm_compute. auto. Qed.
+
+From Ctg Require Import Net Einsum SumOver.
+Open Scope nat_scope.
+
+(* ================================================================== *)
+(* VALUE invariance of einsum under an injective relabelling            *)
+
+Lemma sum_over_agree size D js : forall e1 e2 (G : env -> Z),
+  (forall a b, agree_on D a b -> G a = G b) -> agree_on D e1 e2 ->
+  sum_over size js e1 G = sum_over size js e2 G.
+Proof.
+  induction js as [|j js IH]; intros e1 e2 G HG He; cbn; [apply HG, He|].
+  apply sumn_ext. intros v _. apply IH; [exact HG|].
+  intros k Hk. unfold upd. destruct (Nat.eqb k j); [reflexivity|apply He, Hk].
+Qed.
+
+Lemma sum_over_relabel f size size' D js : forall e' (G : env -> Z),
+  inj_on f D -> incl js D -> (forall j, In j js -> size' (f j) = size j) ->
+  (forall a b, agree_on D a b -> G a = G b) ->
+  sum_over size' (map f js) e' (fun e'' => G (fun j => e'' (f j))) =
+  sum_over size js (fun j => e' (f j)) G.
+Proof.
+  intros e' G Hinj. revert e'. induction js as [|j js IH]; intros e' Hincl Hsz HG; cbn; [reflexivity|].
+  rewrite (Hsz j (or_introl eq_refl)). apply sumn_ext. intros v _.
+  rewrite IH; [|intros x Hx; apply Hincl; right; exact Hx|intros x Hx; apply Hsz; right; exact Hx|exact HG].
+  apply (sum_over_agree size D); [exact HG|].
+  intros k Hk. unfold upd.
+  destruct (Nat.eqb k j) eqn:E.
+  - apply Nat.eqb_eq in E. subst. rewrite Nat.eqb_refl. reflexivity.
+  - replace (Nat.eqb (f k) (f j)) with false; [reflexivity|].
+    symmetry. apply Nat.eqb_neq. intro Hf. apply Nat.eqb_neq in E. apply E.
+    apply Hinj; [exact Hk|apply Hincl; left; reflexivity|exact Hf].
+Qed.
+
+Lemma nodup_map_inj f l : inj_on f l -> nodup Nat.eq_dec (map f l) = map f (nodup Nat.eq_dec l).
+Proof.
+  induction l as [|x l IH]; intro H; [reflexivity|]. cbn [map nodup].
+  assert (Hl : inj_on f l) by (intros a b Ha Hb; apply H; right; assumption).
+  destruct (in_dec Nat.eq_dec (f x) (map f l)) as [I1|I1], (in_dec Nat.eq_dec x l) as [I2|I2].
+  - apply IH, Hl.
+  - exfalso. apply in_map_iff in I1. destruct I1 as [y [E Hy]]. apply I2.
+    rewrite <- (H y x (or_intror Hy) (or_introl eq_refl) E). exact Hy.
+  - exfalso. apply I1. apply in_map. exact I2.
+  - cbn [map]. f_equal. apply IH, Hl.
+Qed.
+
+Lemma filter_map_comm {A B} (P : B -> bool) (g : A -> B) l : filter P (map g l) = map g (filter (fun x => P (g x)) l).
+Proof. induction l as [|x l IH]; cbn; [reflexivity|]. destruct (P (g x)); cbn; rewrite IH; reflexivity. Qed.
+
+Lemma zget_relabel f sd j : inj_on f (j :: map fst sd) -> zget (f j) (relabel_sizes f sd) = zget j sd.
+Proof.
+  induction sd as [|[k v] sd IH]; intro H; [reflexivity|]. cbn [relabel_sizes map fst snd zget].
+  destruct (Nat.eqb k j) eqn:E.
+  - apply Nat.eqb_eq in E. subst. rewrite Nat.eqb_refl. reflexivity.
+  - replace (Nat.eqb (f k) (f j)) with false.
+    + apply IH. intros a b Ha Hb. apply H; cbn in *; tauto.
+    + symmetry. apply Nat.eqb_neq. intro Hf. apply Nat.eqb_neq in E. apply E.
+      apply H; cbn; auto.
+Qed.
+
+Theorem einsum_relabel_invariant f n (arr : nat -> ptensor) e' :
+  inj_on f (net_labels n) ->
+  einsum_spec (relabel_net f n) [] arr e' = einsum_spec n [] arr (fun j => e' (f j)).
+Proof.
+  intro Hinj. unfold einsum_spec.
+  set (D := net_labels n).
+  assert (Hin_inputs : incl (concat (inputs n)) D) by (intros x Hx; unfold D, net_labels; apply in_or_app; left; exact Hx).
+  assert (Hin_out : incl (output n) D) by (intros x Hx; unfold D, net_labels; apply in_or_app; right; apply in_or_app; left; exact Hx).
+  assert (Hin_keys : incl (map fst (szd n)) D) by (intros x Hx; unfold D, net_labels; apply in_or_app; right; apply in_or_app; right; exact Hx).
+  (* the summed indices *)
+  assert (Hall : all_ix (relabel_net f n) = map f (all_ix n)).
+  { unfold all_ix. cbn [inputs relabel_net]. rewrite <- concat_map. apply nodup_map_inj.
+    intros a b Ha Hb. apply Hinj; apply Hin_inputs; assumption. }
+  assert (Hinner : inner (relabel_net f n) [] = map f (inner n [])).
+  { unfold inner. rewrite Hall, filter_map_comm. f_equal. apply filter_ext_in. intros j Hj.
+    unfold all_ix in Hj. apply nodup_In in Hj. cbn [removed map memb existsb negb andb output relabel_net].
+    f_equal. apply memb_map_inj. intros y Hy E. apply Hinj; [apply Hin_out; exact Hy|apply Hin_inputs; exact Hj|exact E]. }
+  rewrite Hinner.
+  (* the summand *)
+  assert (HNN : NN (relabel_net f n) = NN n) by (unfold NN; cbn; apply map_length).
+  rewrite HNN.
+  assert (Hprod : forall S e'', prodF (relabel_net f n) arr S e'' = prodF n arr S (fun j => e'' (f j))).
+  { induction S as [|k S IH]; intro e''; [reflexivity|]. cbn [prodF]. rewrite IH. f_equal.
+    unfold F. cbn [inputs relabel_net]. f_equal.
+    change (@nil ix) with (map f []) at 1. rewrite map_nth, map_map. reflexivity. }
+  rewrite (sum_over_ext (dim (relabel_net f n)) (map f (inner n [])) e' _ _ (Hprod (seq 0 (NN n)))).
+  apply (sum_over_relabel f (dim n) (dim (relabel_net f n)) D).
+  - exact Hinj.
+  - intros j Hj. unfold inner in Hj. apply filter_In in Hj. destruct Hj as [Hj _].
+    unfold all_ix in Hj. apply nodup_In in Hj. apply Hin_inputs. exact Hj.
+  - intros j Hj. unfold dim. cbn [szd relabel_net]. f_equal. apply zget_relabel.
+    assert (In j D).
+    { unfold inner in Hj. apply filter_In in Hj. destruct Hj as [Hj _].
+      unfold all_ix in Hj. apply nodup_In in Hj. apply Hin_inputs. exact Hj. }
+    intros a b Ha Hb. apply Hinj; [destruct Ha as [<-|Ha]; [assumption|apply Hin_keys; exact Ha]|
+                                   destruct Hb as [<-|Hb]; [assumption|apply Hin_keys; exact Hb]].
+  - intros a b Hab. induction (seq 0 (NN n)) as [|k S IH]; [reflexivity|]. cbn [prodF]. rewrite IH. f_equal.
+    unfold F. f_equal. apply map_ext_in. intros j Hj. apply Hab. apply Hin_inputs.
+    destruct (Nat.lt_ge_cases k (length (inputs n))) as [Hk|Hk].
+    + apply in_concat. exists (nth k (inputs n) []). split; [apply nth_In; exact Hk|exact Hj].
+    + rewrite nth_overflow in Hj by exact Hk. destruct Hj.
+Qed.
+
+(* --- canonicalize_inputs produces exactly the relabelled network --- *)
+Lemma zset_keys j v d x : In x (map fst (zset j v d)) -> x = j \/ In x (map fst d).
+Proof.
+  induction d as [|[k w] d IH]; cbn; [intros [<-|[]]; auto|].
+  destruct (Nat.eqb k j) eqn:E; cbn; [intros [<-|H]; auto|].
+  intros [<-|H]; [auto|]. destruct (IH H); auto.
+Qed.
+Lemma zset_relabel f j v d : inj_on f (j :: map fst d) ->
+  zset (f j) v (relabel_sizes f d) = relabel_sizes f (zset j v d).
+Proof.
+  induction d as [|[k w] d IH]; intro H; [reflexivity|]. cbn [relabel_sizes map fst snd zset].
+  destruct (Nat.eqb k j) eqn:E.
+  - apply Nat.eqb_eq in E. subst. rewrite Nat.eqb_refl. reflexivity.
+  - replace (Nat.eqb (f k) (f j)) with false.
+    + cbn [map fst snd]. f_equal. apply IH. intros a b Ha Hb. apply H; cbn in *; tauto.
+    + symmetry. apply Nat.eqb_neq. intro Hf. apply Nat.eqb_neq in E. apply E. apply H; cbn; auto.
+Qed.
+
+Lemma fold_zset_relabel f items : forall acc,
+  inj_on f (map fst items ++ map fst acc) ->
+  fold_left (fun a xd => zset (f (fst xd)) (snd xd) a) items (relabel_sizes f acc) =
+  relabel_sizes f (fold_left (fun a xd => zset (fst xd) (snd xd) a) items acc).
+Proof.
+  induction items as [|[j v] items IH]; intros acc H; [reflexivity|]. cbn [fold_left fst snd].
+  rewrite zset_relabel by (intros a b Ha Hb; apply H; cbn in *; rewrite in_app_iff; tauto).
+  apply IH. intros a b Ha Hb. apply H; cbn; rewrite in_app_iff in *;
+    [destruct Ha as [Ha|Ha]; [tauto|destruct (zset_keys _ _ _ _ Ha); [subst; tauto|tauto]]|
+     destruct Hb as [Hb|Hb]; [tauto|destruct (zset_keys _ _ _ _ Hb); [subst; tauto|tauto]]].
+Qed.
+
+Lemma combine_map_l {A B C} (g : A -> C) (l : list A) (l' : list B) :
+  combine (map g l) l' = map (fun p => (g (fst p), snd p)) (combine l l').
+Proof. revert l'. induction l as [|x l IH]; intros [|y l']; cbn; try reflexivity. rewrite IH. reflexivity. Qed.
+
+Lemma sizes_from_shapes_relabel f ins : forall shapes,
+  inj_on f (concat ins) ->
+  sizes_from_shapes (map (map f) ins) shapes = relabel_sizes f (sizes_from_shapes ins shapes).
+Proof.
+  unfold sizes_from_shapes. intros shapes H.
+  assert (G : forall ins0 shapes0 acc, incl (concat ins0) (concat ins) -> incl (map fst acc) (concat ins) ->
+    fold_left (fun acc0 ts => fold_left (fun acc' xd => zset (fst xd) (snd xd) acc') (combine (fst ts) (snd ts)) acc0)
+              (combine (map (map f) ins0) shapes0) (relabel_sizes f acc) =
+    relabel_sizes f (fold_left (fun acc0 ts => fold_left (fun acc' xd => zset (fst xd) (snd xd) acc') (combine (fst ts) (snd ts)) acc0)
+              (combine ins0 shapes0) acc) /\ True).
+  { induction ins0 as [|t ins0 IH]; intros shapes0 acc Hi Ha; [split; reflexivity|].
+    destruct shapes0 as [|sh shapes0]; [split; reflexivity|]. cbn [map combine fold_left fst snd].
+    rewrite (combine_map_l f t sh).
+    assert (E : forall (l : list (nat * Z)) (a : sizes),
+      fold_left (fun acc' xd => zset (fst xd) (snd xd) acc') (map (fun p => (f (fst p), snd p)) l) a =
+      fold_left (fun a0 xd => zset (f (fst xd)) (snd xd) a0) l a).
+    { intro l. induction l as [|p l IHl]; intro a; [reflexivity|]. cbn. apply IHl. }
+    rewrite E.
+    assert (Hk : incl (map fst (combine t sh)) (concat ins)).
+    { intros x Hx. apply in_map_iff in Hx. destruct Hx as [[a b] [<- Hab]]. apply in_combine_l in Hab.
+      apply Hi. cbn. apply in_or_app. left. exact Hab. }
+    rewrite fold_zset_relabel.
+    2:{ intros a b Ha' Hb'. apply H; rewrite in_app_iff in *; [destruct Ha'|destruct Hb']; auto. }
+    apply IH; [intros x Hx; apply Hi; cbn; apply in_or_app; right; exact Hx|].
+    (* keys of the new accumulator *)
+    clear - Ha Hk. revert acc Ha. induction (combine t sh) as [|[j v] l IHl]; intros acc Ha; [exact Ha|].
+    cbn [fold_left fst snd]. apply IHl; [intros x Hx; apply Hk; right; exact Hx|].
+    intros x Hx. destruct (zset_keys _ _ _ _ Hx) as [->|Hx']; [apply Hk; left; reflexivity|apply Ha; exact Hx']. }
+  exact (proj1 (G ins shapes [] (incl_refl _) (fun x (Hx : In x []) => match Hx with end))).
+Qed.
+
+Lemma fold_zset_nodup items : forall acc, NoDup (map fst acc ++ map fst items) ->
+  fold_left (fun a xd => zset (fst xd) (snd xd) a) items acc = acc ++ items.
+Proof.
+  induction items as [|[j v] items IH]; intros acc H; [rewrite app_nil_r; reflexivity|].
+  cbn [fold_left fst snd].
+  assert (Hz : zset j v acc = acc ++ [(j, v)]).
+  { assert (Hn : ~ In j (map fst acc)).
+    { apply NoDup_remove_2 in H. intro Hj. apply H. apply in_or_app. left. exact Hj. }
+    clear - Hn. induction acc as [|[k w] acc IHa]; [reflexivity|]. cbn.
+    destruct (Nat.eqb k j) eqn:E; [apply Nat.eqb_eq in E; subst; exfalso; apply Hn; left; reflexivity|].
+    f_equal. apply IHa. intro; apply Hn; right; assumption. }
+  rewrite Hz, IH; [rewrite <- app_assoc; reflexivity|].
+  rewrite map_app, <- app_assoc. exact H.
+Qed.
+
+Lemma im_sizes_fold sd : forall m acc m' s, im_wf m -> im_sizes m sd acc = (m', s) ->
+  s = fold_left (fun a xd => zset (im_fun m' (fst xd)) (snd xd) a) sd acc.
+Proof.
+  induction sd as [|[k d] r IH]; intros m acc m' s W; cbn [im_sizes fold_left fst snd].
+  - intro H; inversion H; reflexivity.
+  - destruct (im_get m k) as [m1 s1] eqn:G. intro H.
+    destruct (im_get_spec _ _ _ _ W G) as [W1 [_ L1]].
+    destruct (im_sizes_spec _ _ _ _ _ W1 H) as [_ [[e2 E2] _]].
+    rewrite (IH _ _ _ _ W1 H). f_equal. f_equal. unfold im_fun. rewrite E2, (im_look_app _ _ _ _ L1). reflexivity.
+Qed.
+
+
+Theorem canonicalize_is_relabel_net ins0 out0 shapes sd ni no nsd m :
+  canonicalize_inputs ins0 out0 shapes sd = (ni, no, Some nsd, m) ->
+  (match sd with Some sdv => NoDup (map fst sdv) | None => True end) ->
+  mkNet ni no nsd = relabel_net (im_fun m) (original_net ins0 out0 shapes sd) /\
+  inj_on (im_fun m) (net_labels (original_net ins0 out0 shapes sd)).
+Proof.
+  intros HC Hnd.
+  destruct (canonicalize_relabels _ _ _ _ _ _ _ _ HC) as [W [Hni [Hdom [Hno [Hsd Hinj]]]]].
+  (* the size dictionary *)
+  assert (Hs : nsd = relabel_sizes (im_fun m) (szd (original_net ins0 out0 shapes sd)) /\
+               incl (map fst (szd (original_net ins0 out0 shapes sd))) (map fst m)).
+  { revert HC. unfold canonicalize_inputs.
+    destruct (im_terms [] ins0) as [m1 ni1] eqn:T1.
+    destruct (im_terms_spec _ _ _ _ im_wf_nil T1) as [W1 [_ [S1 D1]]].
+    assert (R2 : exists m2 no2, (match out0 with Some o => im_term m1 o | None => (m1, find_output_from_inputs ni1) end) = (m2, no2)
+                 /\ im_wf m2 /\ exists e2, m2 = m1 ++ e2).
+    { destruct out0 as [o|].
+      - destruct (im_term m1 o) as [m2 no2] eqn:T2. destruct (im_term_spec _ _ _ _ W1 T2) as [W2 [X _]]. eauto.
+      - exists m1, (find_output_from_inputs ni1). split; [reflexivity|]. split; [exact W1|exists []; rewrite app_nil_r; reflexivity]. }
+    destruct R2 as [m2 [no2 [R2 [W2 [e2 E2]]]]]. rewrite R2.
+    unfold original_net. cbn [szd].
+    destruct sd as [sdv|].
+    - destruct (im_sizes m2 sdv []) as [m3 s3] eqn:T3. intro H. injection H as _ _ Hs Hm. subst m3 s3.
+      destruct (im_sizes_spec _ _ _ _ _ W2 T3) as [_ [_ D3]].
+      split; [|intros x Hx; apply D3; exact Hx].
+      rewrite (im_sizes_fold _ _ _ _ _ W2 T3).
+      etransitivity; [apply (fold_zset_relabel (im_fun m) sdv []); cbn; rewrite app_nil_r;
+                      intros a b Ha Hb; apply Hinj; apply D3; assumption|].
+      rewrite fold_zset_nodup by exact Hnd. reflexivity.
+    - destruct shapes as [shs|]; intro H; [|discriminate H].
+      injection H as Hn _ Hs Hm.
+      split.
+      + rewrite <- Hs, Hn, Hni. apply sizes_from_shapes_relabel.
+        intros a b Ha Hb. apply Hinj; apply Hdom; assumption.
+      + intros x Hx. apply in_map_iff in Hx. destruct Hx as [[a b] [<- Hab]].
+        apply Hdom. clear - Hab. unfold sizes_from_shapes in Hab.
+        assert (G : forall insx shapes0 (acc : sizes), In (a, b) (fold_left (fun acc0 ts => fold_left (fun acc' xd => zset (fst xd) (snd xd) acc') (combine (fst ts) (snd ts)) acc0) (combine insx shapes0) acc) ->
+                   In a (map fst acc) \/ In a (concat insx)).
+        { induction insx as [|t insx IH]; intros shapes0 acc H; [left; apply in_map_iff; exists (a, b); auto|].
+          destruct shapes0 as [|sh shapes0]; [left; apply in_map_iff; exists (a, b); auto|].
+          cbn [combine fold_left fst snd] in H. destruct (IH _ _ H) as [H1|H1]; [|right; cbn; apply in_or_app; right; exact H1].
+          assert (G2 : forall l (acc0 : sizes), In a (map fst (fold_left (fun acc' xd => zset (fst xd) (snd xd) acc') l acc0)) ->
+                       In a (map fst acc0) \/ In a (map fst l)).
+          { induction l as [|[j v] l IHl]; intros acc0 H0; [left; exact H0|]. cbn [fold_left fst snd] in H0.
+            destruct (IHl _ H0) as [H2|H2]; [|right; right; exact H2].
+            destruct (zset_keys _ _ _ _ H2) as [->|H3]; [right; left; reflexivity|left; exact H3]. }
+          destruct (G2 _ _ H1) as [H2|H2]; [left; exact H2|right].
+          cbn. apply in_or_app. left. apply in_map_iff in H2. destruct H2 as [[x y] [<- Hxy]].
+          apply in_combine_l in Hxy. exact Hxy. }
+        destruct (G _ _ _ Hab) as [[]|H]; exact H. }
+  destruct Hs as [Hs Hkeys].
+  split.
+  - unfold relabel_net, original_net in *. cbn [inputs output szd] in *. rewrite Hni, Hs. f_equal.
+    destruct out0 as [o|]; [apply Hno|exact Hno].
+  - intros a b Ha Hb. apply Hinj.
+    + unfold net_labels, original_net in Ha. cbn [inputs output szd] in Ha.
+      apply in_app_or in Ha. destruct Ha as [Ha|Ha]; [apply Hdom; exact Ha|].
+      apply in_app_or in Ha. destruct Ha as [Ha|Ha]; [|apply Hkeys; exact Ha].
+      destruct out0 as [o|]; [apply Hno; exact Ha|].
+      apply Hdom. rewrite find_output_from_inputs_spec in Ha. unfold once_first_seen in Ha. apply filter_In in Ha. tauto.
+    + unfold net_labels, original_net in Hb. cbn [inputs output szd] in Hb.
+      apply in_app_or in Hb. destruct Hb as [Hb|Hb]; [apply Hdom; exact Hb|].
+      apply in_app_or in Hb. destruct Hb as [Hb|Hb]; [|apply Hkeys; exact Hb].
+      destruct out0 as [o|]; [apply Hno; exact Hb|].
+      apply Hdom. rewrite find_output_from_inputs_spec in Hb. unfold once_first_seen in Hb. apply filter_In in Hb. tauto.
+Qed.
+
+(* the value of the canonicalised contraction IS the value of the contraction that was asked for *)
+Theorem canonicalize_value_invariant ins0 out0 shapes sd ni no nsd m (arr : nat -> ptensor) e' :
+  canonicalize_inputs ins0 out0 shapes sd = (ni, no, Some nsd, m) ->
+  (match sd with Some sdv => NoDup (map fst sdv) | None => True end) ->
+  einsum_spec (mkNet ni no nsd) [] arr e' =
+  einsum_spec (original_net ins0 out0 shapes sd) [] arr (fun j => e' (im_fun m j)).
+Proof.
+  intros HC Hnd. destruct (canonicalize_is_relabel_net _ _ _ _ _ _ _ _ HC Hnd) as [E Hinj].
+  rewrite E. apply einsum_relabel_invariant. exact Hinj.
+Qed.
